@@ -125,8 +125,7 @@ class C20(Check):
         out.label("codec:" + case["codec"], "content:" + case["content"], "op:" + case["op"], "wapi:" + case["wapi"], "pos:" + case["position"],
                   "aes" if case["aes"] else "plain")
         env.state["k"] += 1
-        work = os.path.join(env.scratch, "c20-%d" % env.state["k"])
-        os.makedirs(work)
+        work = env.tmpdir("c20-")  # unique: a replacement sandbox child must not collide with a killed one
         try:
             small = [["s1.txt", "period7", 3000, 1], ["s2.bin", "random", 70000, 2]]
             bigm = ["big.bin", case["content"], size, case["seed"]]
